@@ -29,7 +29,9 @@ def run(chk: Check):
     chk.trusted = ["drivers/layout_gen.py:line_widths (segments -> lines -> rich.cells.cell_len of the tree under test)",
                    "drivers/layout_gen.py:project_text (character -> class {char, space, newline, tab, other} and cell width)",
                    "drivers/layout_gen.py:build (abstract tree -> constructor calls)"]
-    chk.assumptions = ["Console(color_system=None, legacy_windows=False, utf-8)",
+    chk.assumptions = ["default console: Console(color_system=None, legacy_windows=False, utf-8); half of the random trees are measured and rendered "
+                       "under a non-default environment (layout_gen.gen_env: options.update(width= | max_width=) on a wider console, ascii-only, "
+                       "legacy_windows, safe_box off, colour systems, justify / overflow / no_wrap through the options, tab size, highlighting off)",
                        "MinW as documented in specs/Layout.tla; trees outside C01's quantifier are judged on the bounds and text clauses only",
                        "the statement is silent on the minimum of a text without any word: not judged",
                        "a rejected record that has a rejected proper sub-tree is attributed to the sub-tree"]
@@ -46,8 +48,10 @@ def run(chk: Check):
             trees.append(G.gen(chk.rng, 4))
         # text leaves on their own: the exactness clauses
         for _ in range(chk.pick(600, 6000)):
-            trees.append(G.mk_txt(chk.rng, False, chk.rng.choice([4, 8, 12, 20])))
-        chk.notes["trees"] = dict(tlc_generated=n_tlc, tlc_used=n_used, random=len(trees) - n_used)
+            trees.append(G.mk_txt(chk.rng, False, chk.rng.choice([4, 8, 12, 20]), hist_p=0.2))      # a fifth: reused objects (measured, edited in place, measured again)
+        n_rand = len(trees) - n_used
+        trees += G.boundary_trees()         # every kind of renderable x every environment preset (hand-listed, deterministic)
+        chk.notes["trees"] = dict(tlc_generated=n_tlc, tlc_used=n_used, random=n_rand, boundary=len(trees) - n_used - n_rand)
     prod = G.produce("C09", trees, subs=True, seed=chk.seed)
     items = [it for p in prod for it in p]
     chk.mark("measure+render")
